@@ -34,7 +34,7 @@ SEARCHIMPL = Ref('SearchImplementation')
 W.class_path['SearchImplementation'] = 'dawgie.db.shelve.search.SearchImplementation'
 PARAMS = Ref('Params')
 LPK = ListOf(PK)
-LSTR = ListOf(STR)
+LSTR = ListOf(STR)      # its sort is resolved at use (Str is opaque while _find is verified)
 prime_keys_of = z3.Function('matching_prime_keys', PARAMS.sort(), LPK.sort())
 
 
@@ -77,6 +77,7 @@ class find_page(ContractBase):
     modifies = []
     locals = {'items': LSTR}
     opaque_fstrings = True
+    opaque_strings = True          # entries are only copied and compared for equality: no string theory needed
 
     def requires(c):
         lim = c['limit']
